@@ -20,7 +20,7 @@ META = dict(
 )
 
 
-def _case(mats, wl_kind, zero=None):
+def _case(mats, wl_kind, zero=None, same_name=False):
     """mats: list of lists of pool keys (one material each)"""
     def h(E):
         from periodictable import nsf, formulas
@@ -30,7 +30,7 @@ def _case(mats, wl_kind, zero=None):
         materials = []
         for mi, m in enumerate(mats):
             counts = [E.real('n%d_%s' % (mi, k), lo=0, lo_open=True, hi=1000) for k in m]
-            materials.append(formulas.formula([(c, A[k]) for c, k in zip(counts, m)]))
+            materials.append(formulas.formula([(c, A[k]) for c, k in zip(counts, m)], name='sample' if same_name else None))
         ws = [E.real('w%d' % i, lo=0, hi=1000) for i in range(len(mats))]
         rho = E.real('rho', lo=0, hi=25)
         if zero == 'weights':
@@ -186,6 +186,9 @@ def cases(tier):
     for mats, wk in specs:
         nm = '|'.join('+'.join(m) for m in mats)
         out.append(Case('composite[%s|wl=%s]' % (nm, wk), _case(mats, wk), max_paths=mp, timeout_ms=to, portfolio=th))
+    out.append(Case('composite[X+Y|D+H|wl=scalar|all named alike]', _case([['X', 'Y'], ['D', 'H']], 'scalar', same_name=True), max_paths=mp, timeout_ms=to, portfolio=th))
+    out.append(Case('zero_weights[X+Y|scalar]', _case([['X', 'Y']], 'scalar', zero='weights'), max_paths=mp, timeout_ms=to))
+    out.append(Case('zero_weights[X+Y|2]', _case([['X', 'Y']], '2', zero='weights'), max_paths=mp, timeout_ms=to))
     out.append(Case('zero_weights[X+Y|D|scalar]', _case([['X', 'Y'], ['D']], 'scalar', zero='weights'), max_paths=mp, timeout_ms=to))
     out.append(Case('zero_density[X+Y|D|scalar]', _case([['X', 'Y'], ['D']], 'scalar', zero='density'), max_paths=mp, timeout_ms=to))
     out.append(Case('zero_weights[X+Y|D|2]', _case([['X', 'Y'], ['D']], '2', zero='weights'), max_paths=mp, timeout_ms=to))
